@@ -5,6 +5,10 @@
  *     => P<status>                                   the signature does not parse
  *        X<status> [R<ext-hex> D<0|1> T<0|1>] S<0|1> status of the call; the result's serialization, whether it has the source's
  *                                                    document hash and signing time; whether the source still serializes as before
+ *   xs <sig-hex> <ver> <key-hex> <reply-hex> <pubfile-hex> <anchors> <constraints>
+ *       KSI_extendSignature(ctx, sig, &ext): the publications file is fetched through file://, PKI-verified against the anchors
+ *       (ca | other | none: PEM files in $VERIF_PKI_DIR) under the constraints (oid:hexvalue[,…] | -), its nearest publication
+ *       is the target                                  => as x
  *   compat <calA-hex> <calB-hex>                     KSI_CalendarHashChain_verifyCompatibilityTo(A, B)  => K<status>
  */
 #include "common.h"
@@ -13,6 +17,7 @@
 #include <ksi/policy.h>
 #include <ksi/tlv_template.h>
 #include <ksi/hashchain.h>
+#include <ksi/pkitruststore.h>
 
 KSI_IMPORT_TLV_TEMPLATE(KSI_PublicationRecord);
 KSI_IMPORT_TLV_TEMPLATE(KSI_CalendarHashChain);
@@ -78,6 +83,54 @@ done:
 		KSI_CTX_free(ctx);
 		unlink(uri + 7);
 		free(raw); free(key0); free(key); free(reply);
+	} else if (n >= 8 && !strcmp(w[0], "xs")) {
+		KSI_CTX *ctx = NULL; KSI_Signature *sig = NULL, *ext = NULL; KSI_PKITruststore *pki = NULL; size_t len, kl, rn, pl; int r, nc = 0;
+		unsigned char *raw = unhex(w[1], &len), *key0 = unhex(w[3], &kl), *reply = unhex(w[4], &rn), *pfb = unhex(w[5], &pl);
+		char *key = malloc(kl + 1), uri[96], puri[96], pfpath[64], capath[512]; KSI_CertConstraint cons[16]; const char *pkidir = getenv("VERIF_PKI_DIR");
+		unsigned char *before = NULL, *after = NULL; size_t bl = 0, al = 0; char *p;
+		memcpy(key, key0, kl); key[kl] = 0; memset(cons, 0, sizeof(cons));
+		KSI_CTX_new(&ctx);
+		snprintf(uri, sizeof(uri), "file://%s", tmp_with(reply, rn));
+		{ int fd; FILE *f; strcpy(pfpath, "/tmp/verif_c08p_XXXXXX"); fd = mkstemp(pfpath); f = fdopen(fd, "wb"); if (pl) fwrite(pfb, 1, pl, f); fclose(f); }
+		snprintf(puri, sizeof(puri), "file://%s", pfpath);
+		KSI_CTX_setOption(ctx, KSI_OPT_EXT_PDU_VER, (void *)(size_t)atoi(w[2]));
+		KSI_CTX_setExtender(ctx, uri, "anon", key);
+		KSI_CTX_setPublicationUrl(ctx, puri);
+		KSI_PKITruststore_new(ctx, 0, &pki);
+		if (strcmp(w[6], "none")) { snprintf(capath, sizeof(capath), "%s/%s.pem", pkidir ? pkidir : ".", w[6]); KSI_PKITruststore_addLookupFile(pki, capath); }
+		KSI_CTX_setPKITruststore(ctx, pki);
+		if (strcmp(w[7], "-")) {
+			for (p = strtok(w[7], ","); p != NULL && nc < 14; p = strtok(NULL, ",")) {
+				char *c = strchr(p, ':'); size_t vl; unsigned char *v;
+				if (c == NULL) continue;
+				*c = 0; v = unhex(c + 1, &vl);
+				cons[nc].oid = strdup(p); cons[nc].val = malloc(vl + 1); memcpy(cons[nc].val, v, vl); cons[nc].val[vl] = 0; free(v); nc++;
+			}
+			KSI_CTX_setDefaultPubFileCertConstraints(ctx, cons);
+		}
+		r = KSI_Signature_parseWithPolicy(ctx, raw, len, KSI_VERIFICATION_POLICY_EMPTY, NULL, &sig);
+		if (r != KSI_OK) printf("P%d", r);
+		else {
+			KSI_Signature_serialize(sig, &before, &bl);
+			r = KSI_extendSignature(ctx, sig, &ext);
+			printf("X%d", r);
+			if (r == KSI_OK && ext != NULL) {
+				unsigned char *es = NULL; size_t el = 0; KSI_DataHash *d1 = NULL, *d2 = NULL; KSI_Integer *t1 = NULL, *t2 = NULL;
+				KSI_Signature_serialize(ext, &es, &el);
+				printf(" R"); puthex(stdout, es, el);
+				KSI_Signature_getDocumentHash(sig, &d1); KSI_Signature_getDocumentHash(ext, &d2);
+				KSI_Signature_getSigningTime(sig, &t1); KSI_Signature_getSigningTime(ext, &t2);
+				printf(" D%d T%d", KSI_DataHash_equals(d1, d2) ? 1 : 0, KSI_Integer_equals(t1, t2) ? 1 : 0);
+				KSI_free(es);
+			} else if (ext != NULL) printf(" RESULT-WITH-ERROR");
+			KSI_Signature_serialize(sig, &after, &al);
+			printf(" S%d", (al == bl && bl == len && !memcmp(before, after, al) && !memcmp(before, raw, len)) ? 1 : 0);
+		}
+		KSI_free(before); KSI_free(after);
+		KSI_Signature_free(ext); KSI_Signature_free(sig); KSI_CTX_free(ctx);
+		for (r = 0; r < nc; r++) { free(cons[r].oid); free(cons[r].val); }
+		unlink(uri + 7); unlink(pfpath);
+		free(raw); free(key0); free(key); free(reply); free(pfb);
 	} else if (n >= 3 && !strcmp(w[0], "compat")) {
 		KSI_CTX *ctx = NULL; KSI_CalendarHashChain *a = NULL, *b = NULL; KSI_TLV *ta = NULL, *tb = NULL; int r;
 		KSI_CTX_new(&ctx);
